@@ -41,6 +41,10 @@ class ExtractError(Exception):
     pass
 
 
+class LostAid(ExtractError):
+    """a proof aid (loop invariant block, hint anchor) has no place in the current source any more"""
+
+
 LOG_MACROS = {"trace", "debug", "info", "warn", "error"}
 
 
@@ -981,7 +985,9 @@ CLAUSE_RE = re.compile(r"//#\s*(\S+)(?:\s+tags=(\S+))?\s*$")
 
 
 class Generator:
-    def __init__(self, repo, template_path, canary=False):
+    def __init__(self, repo, template_path, canary=False, lenient=False):
+        self.lenient = lenient      # skip proof aids whose loop / anchor no longer exists (recorded in lost_aids)
+        self.lost_aids = []
         self.canary = canary
         self.canaries = []       # (canary id, item id, where)
         self.repo = repo
@@ -1186,6 +1192,31 @@ class Generator:
             loops, si = loops_of(pieces, body_k)
             loops_info = loops
             cancel_block = None
+            if self.lenient:
+                # if any aid of this item has lost its place, drop ALL its hint blocks (they may mention locals
+                # or ghosts that are gone) and keep only the contract, the cancel clause and loop blocks that
+                # still have a loop; the contract decides
+                def _lost(bk):
+                    w = bk.where
+                    if w.startswith("loop "):
+                        return int(w.split()[1]) > len(loops)
+                    m = re.match(r"at loop(\d+)\.", w)
+                    if m:
+                        return int(m.group(1)) > len(loops)
+                    if w.startswith("before ") or w.startswith("after "):
+                        m = re.match(r'\S+\s+"((?:[^"\\]|\\.)*)"(?:\s+#(\d+)of(\d+))?(\s+opt)?$', w)
+                        if not m or m.group(4):
+                            return False
+                        a_s = m.group(1).replace('\\"', '"').replace("\\\\", "\\")
+                        n = len([x for x in find_pattern(pieces, a_s) if x[3][x[0]] >= body_open])
+                        return n != (int(m.group(3)) if m.group(2) else 1)
+                    return False
+                lost_here = [bk.where for bk in blocks if _lost(bk)]
+                if lost_here:
+                    self.lost_aids += [f"{iid}: {w}" for w in lost_here]
+                    blocks = [bk for bk in blocks if bk.where in ("spec", "cancel")
+                              or (bk.where.startswith("loop ") and int(bk.where.split()[1]) <= len(loops))]
+                    self.lost_aids.append(f"{iid}: all hint blocks dropped")
             for bk in blocks:
                 w = bk.where
                 if w == "spec":
@@ -1193,7 +1224,10 @@ class Generator:
                 elif w.startswith("loop "):
                     K = int(w.split()[1])
                     if K > len(loops):
-                        raise ExtractError(f"{iid}: loop {K} not found ({len(loops)} loops in {path})")
+                        if self.lenient:
+                            self.lost_aids.append(f"{iid}: loop {K} (function has {len(loops)} loops)")
+                            continue
+                        raise LostAid(f"{iid}: loop {K} not found ({len(loops)} loops in {path})")
                     add_inj(si[loops[K - 1][1]], "before", bk.lines, f"{iid}.loop{K}")
                 elif w.startswith("at "):
                     tgt = w[3:].strip()
@@ -1207,7 +1241,10 @@ class Generator:
                             raise ExtractError(f"{iid}: bad position {tgt}")
                         K = int(m.group(1))
                         if K > len(loops):
-                            raise ExtractError(f"{iid}: loop {K} not found")
+                            if self.lenient:
+                                self.lost_aids.append(f"{iid}: position {tgt}")
+                                continue
+                            raise LostAid(f"{iid}: loop {K} not found")
                         if m.group(2) == "start":
                             add_inj(si[loops[K - 1][1]], "after", bk.lines, f"{iid}.hint.loop{K}start")
                         else:
@@ -1224,12 +1261,18 @@ class Generator:
                     if m.group(2):
                         # `#KofN`: the K-th of exactly N occurrences
                         if len(ms) != int(m.group(3)):
-                            raise ExtractError(f"{iid}: lost anchor {a_s!r} (matches {len(ms)} times, expected {m.group(3)})")
+                            if self.lenient:
+                                self.lost_aids.append(f"{iid}: anchor {a_s!r} #{m.group(2)}of{m.group(3)} (matches {len(ms)} times)")
+                                continue
+                            raise LostAid(f"{iid}: lost anchor {a_s!r} (matches {len(ms)} times, expected {m.group(3)})")
                         ms = [ms[int(m.group(2)) - 1]]
                     if len(ms) != 1:
                         if optional and not ms:
                             continue
-                        raise ExtractError(f"{iid}: lost anchor {a_s!r} (matches {len(ms)} times)")
+                        if self.lenient:
+                            self.lost_aids.append(f"{iid}: anchor {a_s!r} (matches {len(ms)} times)")
+                            continue
+                        raise LostAid(f"{iid}: lost anchor {a_s!r} (matches {len(ms)} times)")
                     k0, e0, _, si2 = ms[0]
                     if pos == "before":
                         add_inj(si2[k0], "before", bk.lines, f"{iid}.hint")
@@ -1528,14 +1571,14 @@ def _cancel_tags(block, default):
     return default
 
 
-def generate(repo, template, out_rs, out_map, canary=False):
-    g = Generator(repo, template, canary=canary)
+def generate(repo, template, out_rs, out_map, canary=False, lenient=False):
+    g = Generator(repo, template, canary=canary, lenient=lenient)
     g.run()
     text, linemap = g.result()
     os.makedirs(os.path.dirname(out_rs), exist_ok=True)
     open(out_rs, "w").write(text)
     meta = {"template": template, "items": g.items, "rules": g.applied.rules, "clauses": g.clauses, "linemap": linemap,
-            "canaries": g.canaries}
+            "canaries": g.canaries, "lost_aids": g.lost_aids}
     json.dump(meta, open(out_map, "w"))
     return meta
 
